@@ -1,6 +1,7 @@
 (* C05 - Serialize / initialize / deserialize round-trip with exact size accounting. Statements only. *)
 From SF Require Import Base.Prelude Unsized.Types Unsized.Parse Unsized.Machine Unsized.Ops Unsized.Proofs.EncodeParse.
 From SF Require Import Unsized.Proofs.Layout Unsized.Proofs.Init Unsized.Proofs.InitKinds.
+From SF Require Import Unsized.SizedInit Unsized.Proofs.SizedInitProofs.
 
 (* serializing produces exactly the announced number of bytes, for every shape and every well-formed value *)
 Theorem C05_encode_size : forall t v, wf t v = true -> zlen (encode t v) = byte_size t v.
@@ -86,3 +87,26 @@ Example C05_nonvacuous :
   let v := VStruct [VBytes [7; 1]; VList [[1]; [2]]; VUList [([], VList [[3; 4]]); ([], VList [])]; VBytes [9; 9]] in
   ty_ok true t = true /\ wf t v = true /\ parse true t (encode t v) = Ok (v, 34).
 Proof. vm_compute. repeat split; reflexivity. Qed.
+
+(* SIZED (bytemuck) values initialised as unsized types (checked.rs: UnsizedInit<DefaultInit> for T, UnsizedInit<T> for T):
+   exactly INIT_BYTES = size_of::<T>() bytes are consumed, they are the bytes of the value the initializer denotes - the
+   type's OWN default for DefaultInit -, nothing behind them is touched, and they parse back to that value *)
+Theorem C05_sized_init_exact :
+  forall t arg dst,
+    sized_ok t -> arg_ok t arg -> (s_size t <= length dst)%nat ->
+    exists after rest,
+      sized_init t arg dst = Some (after, rest) /\
+      (length dst - length rest = s_size t)%nat /\
+      firstn (s_size t) after = denoted t arg /\
+      skipn (s_size t) after = skipn (s_size t) dst /\
+      length after = length dst /\
+      sized_parse t (firstn (s_size t) after) = Some (denoted t arg).
+Proof. exact sized_init_exact. Qed.
+
+(* DefaultInit is not a zero fill *)
+Theorem C05_sized_default_init_writes_the_default :
+  forall t dst after rest,
+    sized_ok t -> (s_size t <= length dst)%nat -> sized_init t None dst = Some (after, rest) ->
+    firstn (s_size t) after = s_default t /\
+    (s_default t <> repeat 0 (s_size t) -> firstn (s_size t) after <> repeat 0 (s_size t)).
+Proof. exact sized_default_init_writes_the_default. Qed.
